@@ -5,6 +5,8 @@ from __future__ import annotations
 import ast
 
 from ..core import AnalysisError, Check, norm, strip_docstring, walk_no_nested
+from ..blocks import run_blocks, subset_atom
+from ..interp import Sym, SymInterp
 from ..variants import Variant
 
 MOD = "model.py"
@@ -83,11 +85,24 @@ class C13(Check):
                           f"the single evaluation pass runs on `{' | '.join(dparts)}` instead of plain parameters | plain initial values | data | {{'time': 0.0}}",
                           witness="an initial assignment depending on `time` (or on a data set / plain value) is resolved from the wrong value"
                           if tpart != ["{'time': 0.0}"] else "a name class is missing from the pass: KeyError or a stale value")
-        passes = [s for s in body if isinstance(s, ast.For) and any(
+        # every name of the order is evaluated exactly once, unconditionally, in the sorter's order (block abstraction, one iteration per block)
+        def role_names():
+            return {"static": "static_order", "dyn": "dyn_order", "closure": "all_parameter_names", "table": "all_parameter_values", "dep": dep}
+
+        eval_loops = [s for s in body if isinstance(s, ast.For) and any(
             isinstance(c, ast.Call) and isinstance(c.func, ast.Attribute) and c.func.attr in ("calculate_inpl", "calculate") and dep in norm(c) for c in ast.walk(s))
             and "stoichiometry" not in norm(s.iter) and "stoichiometries" not in norm(s.iter) and "_reactions" not in norm(s.iter) and "_surrogates" not in norm(s.iter)]
-        if len(passes) == 1 and norm(passes[0].iter) == order and [norm(b) for b in passes[0].body] == [f"to_sort[{norm(passes[0].target)}].calculate_inpl({norm(passes[0].target)}, {dep})"]:
-            self.holds("N1", MOD, CC, "single-pass-in-order", passes[0], f"one pass `for name in {order}` evaluating each component in place")
+        passes = eval_loops
+        good_pass = False
+        if len(eval_loops) == 1 and norm(eval_loops[0].iter) == order and isinstance(eval_loops[0].target, ast.Name):
+            lp_ = eval_loops[0]
+            nm_ = lp_.target.id
+            res = run_blocks(lp_, role_names())
+            first_ = lp_.body[0]
+            first_ok = isinstance(first_, ast.Expr) and norm(first_.value) == f"to_sort[{nm_}].calculate_inpl({nm_}, {dep})"
+            good_pass = first_ok and all(ends and all(e.evaluated == 1 for e in ends) for ends in res.values())
+        if good_pass:
+            self.holds("N1", MOD, CC, "single-pass-in-order", passes[0], f"one pass `for name in {order}` evaluating each component in place, first thing in every iteration")
         else:
             self.violated("N1", MOD, CC, "single-pass-in-order", passes[0] if passes else cc,
                           f"{len(passes)} evaluation pass(es) / not over the sorter's order unfiltered",
@@ -115,31 +130,32 @@ class C13(Check):
             self.violated("N1", MOD, CC, "assignments-of-both-kinds", s or cc, "initial assignments of variables and parameters are not both collected for sorting/evaluation",
                           witness="a parameter defined by an initial assignment is never computed")
         # ---------------- N2
-        loops = [s for s in body if isinstance(s, ast.For) and norm(s.iter) == order and s not in passes]
-        cl = [s for s in loops if "static_order" in norm(s) and "dyn_order" in norm(s)]
-        if len(cl) != 1:
-            self.violated("N2", MOD, CC, "classification-in-order", cc, f"classification loop over `{order}` not found: the static/dynamic split does not follow dependency order",
+        cl = [s for s in body if isinstance(s, ast.For) and "static_order" in norm(s) and "dyn_order" in norm(s) and any(
+            isinstance(c, ast.Call) and norm(c.func) in ("static_order.append", "dyn_order.append") for c in ast.walk(s))]
+        if len(cl) != 1 or norm(cl[0].iter) != order or not isinstance(cl[0].target, ast.Name):
+            self.violated("N2", MOD, CC, "classification-in-order", cl[0] if cl else cc, f"classification loop over `{order}` not found: the static/dynamic split does not follow dependency order",
                           witness="derived a (from parameter k) declared after derived b = f(a): b is classified before a and becomes state-dependent / frozen wrongly")
         else:
             lp = cl[0]
             self.holds("N2", MOD, CC, "classification-in-order", lp, f"classification iterates `{order}` (dependency order)")
-            t = norm(lp)
             nm = norm(lp.target)
-            pred = f"if all((i in all_parameter_names for i in derived.args)): static_order.append({nm}) all_parameter_names.add({nm}) else: dyn_order.append({nm})"
-            if pred in " ".join(t.split()):
+            res = run_blocks(lp, role_names())
+            d_ends = res["D"]
+            want_of = {f"self._derived[{nm}].args <= all_parameter_names", f"self._derived.get({nm}).args <= all_parameter_names", f"to_sort[{nm}].args <= all_parameter_names"}
+            okd = bool(d_ends) and {e.subset for e in d_ends} == {"T", "F"} and all(e.subset_of in want_of for e in d_ends) and all(
+                (e.static, e.dyn, e.closure) == ((1, 0, 1) if e.subset == "T" else (0, 1, 0)) for e in d_ends)
+            if okd:
                 self.holds("N2", MOD, CC, "static-iff-all-args-parameters", lp, "static iff all(args in closure); the closure gains each static derived")
             else:
                 self.violated("N2", MOD, CC, "static-iff-all-args-parameters", lp,
                               "a derived quantity is not classified static exactly when ALL its arguments are in the growing parameter closure",
                               witness="derived d = f(k, x) with parameter k and variable x is frozen at its t=0 value (any() instead of all()), or d2 = g(d1) of a static d1 is recomputed")
-            first = lp.body[0] if lp.body else None
-            if isinstance(first, ast.If) and norm(first.test) == f"{nm} in self._reactions or {nm} in self._surrogates" and [norm(b) for b in first.body] == [f"dyn_order.append({nm})"]:
-                self.holds("N2", MOD, CC, "fluxes-dynamic", first, "reactions and surrogates are always recomputed")
+            if all(res[b_] and all((e.static, e.dyn, e.closure) == (0, 1, 0) for e in res[b_]) for b_ in ("R", "S")):
+                self.holds("N2", MOD, CC, "fluxes-dynamic", lp, "reactions and surrogates are always recomputed")
             else:
                 self.violated("N2", MOD, CC, "fluxes-dynamic", lp, "reactions / surrogates are not unconditionally dynamic")
-            second = first.orelse[0] if isinstance(first, ast.If) and first.orelse else None
-            if isinstance(second, ast.If) and norm(second.test) == f"{nm} in self._variables or {nm} in self._parameters" and [norm(b) for b in second.body] == [f"static_order.append({nm})"]:
-                self.holds("N2", MOD, CC, "assignments-static", second, "assignment-defined variables/parameters are static (computed once)")
+            if all(res[b_] and all((e.static, e.dyn) == (1, 0) for e in res[b_]) for b_ in ("IAv", "IAp")):
+                self.holds("N2", MOD, CC, "assignments-static", lp, "assignment-defined variables/parameters are static (computed once)")
             else:
                 self.violated("N2", MOD, CC, "assignments-static", lp, "assignment-defined values are not static: they would be recomputed from the current state",
                               witness="k = InitialAssignment(f(x)) changes with x during a simulation")
@@ -148,24 +164,75 @@ class C13(Check):
             self.holds("N2", MOD, CC, "closure-starts-at-parameters", s, "closure initialised with the parameter names (plain and assignment-defined)")
         else:
             self.violated("N2", MOD, CC, "closure-starts-at-parameters", s or cc, "the parameter closure does not start as the set of parameter names")
-        coef = [n for n in ast.walk(cc) if isinstance(n, ast.If) and norm(n.test) == "all((i in all_parameter_names for i in factor.args))"]
-        if len(coef) >= 2 and all("factor.calculate(" + dep + ")" in norm(c.body[0]) and "dyn_stoich_by_compounds" in norm(c.orelse[0]) for c in coef):
-            self.holds("N2", MOD, CC, "coefficients-same-predicate", coef[0], f"{len(coef)} coefficient site(s): frozen iff all args in the closure, else kept as a state-dependent coefficient")
+        # coefficients: per stoichiometry entry, from the path summaries of the innermost loop body
+        fills = [l for l in ast.walk(cc) if isinstance(l, ast.For) and isinstance(l.target, ast.Tuple) and len(l.target.elts) == 2
+                 and any(isinstance(x, ast.Call) and isinstance(x.func, ast.Attribute) and x.func.attr == "calculate" for x in ast.walk(l))
+                 and not any(isinstance(x, ast.For) for x in l.body) and "stoich" in norm(l)]
+        ok_sites = 0
+        bad_site = None
+        for l in fills:
+            cpd, fac = norm(l.target.elts[0]), norm(l.target.elts[1])
+            o_ = SymInterp().block(l.body, [Sym()])
+            for stp in list(o_.normal) + list(o_.continues):
+                is_der = [p_ for c, p_ in stp.conds if c == f"isinstance({fac}, Derived)"]
+                sub = None
+                for c, p_ in stp.conds:
+                    try:
+                        sa = subset_atom(ast.parse(c, mode="eval").body)
+                    except SyntaxError:
+                        sa = None
+                    if sa == (f"{fac}.args", "all_parameter_names"):
+                        sub = p_
+                    elif c.startswith("any("):
+                        sub = "any"
+                stores = [(e[1], e[2]) for e in stp.events if e[0] == "store"]
+                static_t = [v_ for k_, v_ in stores if k_.startswith(f"stoich_by_compounds.setdefault({cpd}, {{}})[") or k_.startswith(f"stoich_by_compounds[{cpd}][")]
+                dyn_t = [v_ for k_, v_ in stores if k_.startswith(f"dyn_stoich_by_compounds.setdefault({cpd}, {{}})[") or k_.startswith(f"dyn_stoich_by_compounds[{cpd}][")]
+                if is_der and is_der[-1]:
+                    good = (sub is True and static_t == [f"{fac}.calculate({dep})"] and not dyn_t) or (sub is False and dyn_t == [fac] and not static_t)
+                elif is_der:
+                    good = static_t == [fac] and not dyn_t
+                else:
+                    good = False
+                if not good:
+                    bad_site = l
+            if bad_site is not l:
+                ok_sites += 1
+        if fills and bad_site is None and ok_sites >= 1:
+            self.holds("N2", MOD, CC, "coefficients-same-predicate", fills[0], f"{ok_sites} coefficient site(s): frozen iff all args in the closure, else kept as a state-dependent coefficient")
         else:
-            self.violated("N2", MOD, CC, "coefficients-same-predicate", coef[0] if coef else cc, "computed coefficients are not frozen by the same all-args-are-parameters predicate",
+            self.violated("N2", MOD, CC, "coefficients-same-predicate", bad_site or cc, "computed coefficients are not frozen by the same all-args-are-parameters predicate",
                           witness="a coefficient depending on a variable is frozen at its t=0 value")
         # ---------------- N3
         s = a.get("all_parameter_values", [None])[0]
-        if s is not None and norm(s.value) == "dict(base_parameter_values)":
+        fl = [l for l in body if isinstance(l, ast.For) and norm(l.iter) == "static_order" and isinstance(l.target, ast.Name)]
+        frozen_forms = (f"cast(float, {dep}[{{n}}])", f"{dep}[{{n}}]", f"float({dep}[{{n}}])")
+        starts = from_pass = False
+        node_f = s or cc
+        if s is not None and norm(s.value) in ("dict(base_parameter_values)", "base_parameter_values.copy()", "{**base_parameter_values}") and len(fl) == 1:
+            starts = True
+            nm3 = fl[0].target.id
+            res3 = run_blocks(fl[0], role_names(), blocks=("IAv", "IAp", "D"))
+            from_pass = all(res3[b_] for b_ in ("IAp", "D")) and all(e.frozen in [f_.format(n=nm3) for f_ in frozen_forms] for b_ in ("IAp", "D") for e in res3[b_]) \
+                and all(e.frozen == "" for e in res3["IAv"])
+            node_f = fl[0]
+        elif s is not None and isinstance(s.value, ast.BinOp) and isinstance(s.value.op, ast.BitOr) and norm(s.value.left) == "base_parameter_values" and isinstance(s.value.right, ast.DictComp):
+            starts = True
+            dc = s.value.right
+            g = dc.generators[0]
+            nm3 = norm(g.target)
+            filt = [norm(i) for i in g.ifs]
+            from_pass = len(dc.generators) == 1 and norm(g.iter) == "static_order" and norm(dc.key) == nm3 and norm(dc.value) in [f_.format(n=nm3) for f_ in frozen_forms] \
+                and filt in ([f"{nm3} not in self._variables"], [f"{nm3} in self._parameters or {nm3} in self._derived"], [f"{nm3} in self._derived or {nm3} in self._parameters"])
+            node_f = s
+        if starts:
             self.holds("N3", MOD, CC, "frozen-starts-at-plain", s, "frozen values start as a copy of the plain parameter values")
         else:
             self.violated("N3", MOD, CC, "frozen-starts-at-plain", s or cc, "frozen values do not start from the plain parameter values")
-        fl = [l for l in body if isinstance(l, ast.For) and norm(l.iter) == "static_order"]
-        t = " ".join(norm(fl[0]).split()) if fl else ""
-        if fl and f"if name in self._variables: continue if name in self._parameters or name in self._derived: all_parameter_values[name] = cast(float, {dep}[name])" in t:
-            self.holds("N3", MOD, CC, "frozen-from-pass", fl[0], "every static parameter/derived is frozen at its value from the single pass")
+        if from_pass:
+            self.holds("N3", MOD, CC, "frozen-from-pass", node_f, "every static parameter/derived is frozen at its value from the single pass")
         else:
-            self.violated("N3", MOD, CC, "frozen-from-pass", fl[0] if fl else cc, "static values are not all frozen from the single evaluation pass",
+            self.violated("N3", MOD, CC, "frozen-from-pass", node_f, "static values are not all frozen from the single evaluation pass",
                           witness="a derived parameter is missing from get_args (KeyError) or recomputed")
         ga = mod.func("Model._get_args")
         lp = [l for l in strip_docstring(ga.body) if isinstance(l, ast.For) and norm(l.iter) == "cache.dyn_order"]
